@@ -5,6 +5,7 @@
    vm_compute in the kernel. *)
 From PSA Require Import model.Bytes model.Checksum model.Layer model.Dhcp model.Clients model.Ipdb model.IpdbCheck spec.SpecCodec spec.SpecTable spec.SpecIpdb model.Server spec.Monitors.
 From PSA Require Import gen.GoFacts model.Sanitize model.Resolv spec.SpecResolv.
+From PSA Require model.Res.
 Open Scope N_scope.
 
 Definition arg (args : list (list N)) (i : nat) : list N := nth i args [].
@@ -222,10 +223,23 @@ Definition dispatch_c17 (tag : N) (a : LL) : LL :=
   | _ => [[99]]
   end.
 
+(* ---- C19: resource accounting.  arg 0 = flat list of pairs describing the observed history ---- *)
+Fixpoint nat_pairs (l : list N) : list (nat * nat) :=
+  match l with x :: y :: r => (N.to_nat x, N.to_nat y) :: nat_pairs r | _ => [] end.
+Definition res_fuel (evs : list nat) : nat := 64 * (length evs + 4).
+Definition dispatch_c19 (tag : N) (a : LL) : LL :=
+  let xs := nat_pairs (arg a 0) in
+  match tag with
+  | 1901 => let evs := Res.obs_server_events xs in [Res.observable (Res.drive (res_fuel evs) (Res.init (Res.obs_server xs)) [] evs)]
+  | 1902 => let evs := Res.obs_client_events xs in [Res.observable (Res.drive (res_fuel evs) (Res.init (Res.obs_client xs)) [] evs)]
+  | _ => [[99]]
+  end.
+
 Definition dispatch (tag : N) (a : list (list N)) : list (list N) :=
   if (1300 <=? tag) && (tag <? 1400) then dispatch_c13 tag a
   else if (1200 <=? tag) && (tag <? 1300) then dispatch_c12 tag a
   else if (1100 <=? tag) && (tag <? 1200) then dispatch_c11 tag a
   else if (100 <=? tag) && (tag <? 1000) then dispatch_server tag a
   else if (1700 <=? tag) && (tag <? 1800) then dispatch_c17 tag a
+  else if (1900 <=? tag) && (tag <? 2000) then dispatch_c19 tag a
   else [[99]].
